@@ -165,6 +165,39 @@ mutant("c19_low_bound_inclusive", "C19", "samplers/gibbs.py",
        "                mean_acceptation < self._mean_acceptation_lower_bound_before_adaptation",
        "                mean_acceptation <= self._mean_acceptation_lower_bound_before_adaptation + 0.15")
 
+# ----------------------------------------------------------------------------- C09
+mutant("c09_plus_tau", "C09", "models/time_reparametrized.py",
+       "        return alpha * (t - tau)", "        return alpha * (t + tau - 2 * tau.detach().mean())")
+mutant("c09_metric_missing", "C09", "models/logistic.py",
+       "            metric[pop_s] * (v0[pop_s] * rt + space_shifts[:, None, ...])",
+       "            (metric[pop_s] * v0[pop_s] * rt + space_shifts[:, None, ...])")
+mutant("c09_sorted_ages", "C09", "models/base.py",
+       "                subj_id: tpts.values\n", "                subj_id: np.sort(tpts.values)\n")
+mutant("c09_join_multiplies_duplicates", "C09", "models/base.py",
+       "                estimations = estimations[~estimations.index.duplicated()]\n", "")
+mutant("c09_keyed_by_position", "C09", "models/base.py",
+       "            ip = individual_parameters[subj_id]",
+       "            ip = individual_parameters[individual_parameters._indices[list(timepoints).index(subj_id)]]")
+# ----------------------------------------------------------------------------- C12
+mutant("c12_pop_vars_not_reset_to_mode", "C12", "algo/fit/mcmc_saem.py",
+       "            model_state.put_population_latent_variables(\n                LatentVariableInitType.PRIOR_MODE\n            )", "            pass")
+mutant("c12_save_rounds_parameters", "C12", "models/base.py",
+       "                k: tensor_to_list(v) for k, v in (self.parameters or {}).items()",
+       "                k: tensor_to_list(v.round(decimals=3)) for k, v in (self.parameters or {}).items()")
+mutant("c12_load_drops_source_dimension", "C12", "models/settings.py",
+       "            if k not in (\"name\", \"parameters\", \"hyperparameters\", \"leaspy_version\")",
+       "            if k not in (\"name\", \"parameters\", \"hyperparameters\", \"leaspy_version\", \"fit_metrics\")")
+# ----------------------------------------------------------------------------- C13
+mutant("c13_personalize_without_terminate", "C13", "algo/personalize/mcmc.py",
+       "        self._terminate_algo(model, state)", "        pass")
+mutant("c13_scipy_starts_from_leftover_latents", "C13", "algo/personalize/scipy_minimize.py",
+       "            states[idx].put_individual_latent_variables(None)\n", "")
+mutant("c13_settings_mutated", "C13", "algo/base.py",
+       "        self.algo_parameters = deepcopy(settings.parameters)", "        self.algo_parameters = settings.parameters\n        self.algo_parameters[\"progress_bar\"] = not self.algo_parameters.get(\"progress_bar\", True)")
+mutant("c13_estimate_on_model_state", "C13", "models/mcmc_saem_compatible.py",
+       "        local_state = self.state.clone(disable_auto_fork=True)\n        self._put_data_timepoints(local_state, timepoints)\n        for (",
+       "        local_state = self.state\n        self._put_data_timepoints(local_state, timepoints)\n        for (")
+
 
 def apply_mutant(m, dst_src: Path) -> bool:
     f = dst_src / "leaspy" / m["file"]
